@@ -114,8 +114,13 @@ func genC14(seed uint64, tier string) *plan.Plan {
 		}
 	}
 	if r.IntN(2) == 0 {
+		at := r.Int64N(horizonMs + 10)
+		same := r.IntN(3) == 0 // several goroutines call Close at the same instant: only the scheduler orders them
 		for c := 1 + r.IntN(3); c > 0; c-- {
-			pl.Ops = append(pl.Ops, plan.Op{K: "closer", T: c, A: r.Int64N(horizonMs + 10), B: int64(1 + r.IntN(3))})
+			if !same {
+				at = r.Int64N(horizonMs + 10)
+			}
+			pl.Ops = append(pl.Ops, plan.Op{K: "closer", T: c, A: at, B: int64(1 + r.IntN(3))})
 		}
 	}
 	if !udp && r.IntN(2) == 0 {
